@@ -20,6 +20,10 @@ def build(P):
     P.verify(E.SE + "StateEngine.end_execution", R.end_execution_contract(), tags=("C08",))
     P.native("rfc3339-all-offsets", "natives.c08:all_offsets", kind="bounded", clause="true-instant",
              bound="every numeric offset -23:59..+23:59 (2 x 24 x 60, exhaustive) x 3 date-time fields (6 at thorough), plus Z")
+    from contracts import transport as TR
+    for w in ("asyncio", "blocking"):
+        for c in TR.timer_contracts(w):
+            P.verify(c.key, c, tags=("C08",), timeout=30, obl_prefix=w + "." + c.key.split(".")[-1])
     P.explanation = ("Deadline arithmetic of Wait and Task proved per handler (never early w.r.t. the last clock read, never "
                      "later than the deadline measured from the clock at entry, computed from EnteredTime/StartTime so "
                      "redelivery does not extend it); timeout typing (execution deadline => States.ExecutionTimeout, task "
